@@ -45,25 +45,29 @@ type ctIn struct {
 var ctMu sync.Mutex // the trace runtime is global: one traced execution at a time
 
 func zeroBits(p *edwards25519.Point) string {
+	// The API makes "is this the zero value" a validity question; how the
+	// guard evaluates it (which coordinates, in which order, short-circuit or
+	// not) is an implementation choice. The shape therefore records, for every
+	// coordinate independently, whether its limbs are all zero: a finer
+	// partition than any such guard needs, which can only split classes, never
+	// merge executions that a correct guard distinguishes.
 	raw := alpha.PointRaw(p)
-	xz, yz := true, true
-	for i := 0; i < 5; i++ {
-		if raw[i] != 0 {
-			xz = false
+	out := ""
+	for c, name := range []string{"x", "y", "z", "t"} {
+		zero := true
+		for i := 0; i < 5; i++ {
+			if raw[5*c+i] != 0 {
+				zero = false
+			}
 		}
-		if raw[5+i] != 0 {
-			yz = false
+		if zero {
+			out += name + "=0,"
 		}
 	}
-	// the documented zero-value test evaluates "X limbs all zero" and then,
-	// only if so, "Y limbs all zero"
-	if !xz {
-		return "x!=0"
+	if out == "" {
+		return "no-zero-coordinate"
 	}
-	if !yz {
-		return "x=0,y!=0"
-	}
-	return "zero-value"
+	return out
 }
 
 // prepare builds the inputs (untraced) and returns the traced thunk plus the
